@@ -329,6 +329,12 @@ def build_catalogue():
         sepc = rng.choice([ord("_"), ord("'"), ord(","), ord(" ")])
         cat.append(sepfmt(f"SEP_MIX{n:02d}_{tag}_{sepc:02x}", fl, sep=sepc, floats=("f64", "f32") if n % 4 == 0 else ("f64",), ints=("u32", "i64") if n % 3 == 0 else ()))
         n += 1
+    # a letter separator that is the exponent character in the other letter case (the exponent is matched without regard
+    # to case unless the format says otherwise); a group of their own, used by C10 and by the punctuation part of C18
+    for (tag, flags) in [("FRAC_T", mode_flags("fraction", 4, False)), ("INT_I", mode_flags("integer", 1, False))]:
+        f = sepfmt(f"SEPC_E_{tag}", flags, sep=ord("E"), floats=("f64", "f32"), ints=())
+        f.group = "sep_case"
+        cat.append(f)
     # special_digit_separator with and without positional flags
     cat.append(sepfmt("SEP_SPECIAL_ONLY", [], special=True, floats=("f64", "f32"), ints=()))
     cat.append(sepfmt("SEP_SPECIAL_ILTC", [x for comp in comps for x in mode_flags(comp, 7, True)], special=True, floats=("f64", "f32"), ints=()))
